@@ -2384,6 +2384,14 @@ class Interp:
             if isinstance(r_, tuple):
                 return ("list", [("c", y) for y in r_], False, "tuple")
             return ("c", r_)
+        if k == "ext" and recv[1].split(" ")[-1] == "binascii" and name in ("hexlify", "unhexlify", "b2a_hex", "a2b_hex", "crc32") and args and not kwargs \
+                and all(a[0] == "c" for a in args) and ("ext:*." + name) not in self.hooks:
+            # binascii on constants: computed (pure functions of their arguments)
+            import binascii as _binascii
+            try:
+                return ("c", getattr(_binascii, name)(*[a[1] for a in args]))
+            except Exception as x_:
+                raise _Raise(("ext", type(x_).__name__, []), "%s: %s" % (type(x_).__name__, x_))
         if k == "ext" and recv[1] == "dict" and name == "fromkeys" and args:
             items_ = self.iterate(self.force(args[0]))
             if items_ is not None and all(x[0] == "c" and _hashable(x[1]) for x in items_):
